@@ -15,7 +15,7 @@ import subprocess
 import sys
 
 VERIF = os.path.dirname(os.path.dirname(os.path.abspath(__file__)))
-TARGET = "/tmp/seedconfirm_target"
+TARGET = os.environ.get("SEEDCONFIRM_TARGET", "/tmp/seedconfirm_target")   # set per job to confirm several changes in parallel
 
 
 def sh(cmd, cwd, env=None, timeout=1800):
